@@ -227,9 +227,95 @@ fn configs(tier: Tier) -> Vec<Cfg> {
     }
 }
 
+/// (prefix, suffix): the swept character sits between them, in ground state, inside
+/// each kind of control string, and at each stage of an escape / control sequence.
+const CONTEXTS: &[(&str, &str)] = &[
+    ("ab", "cd"),
+    ("\x1b]0;t", "u\x07vw"),
+    ("\x1bP1$q", "x\x1b\\yz"),
+    ("\x1bX", "q\u{9c}rs"),
+    ("\x1b[3", "1mz"),
+    ("\x1b[", "2Cz"),
+    ("\x1b", "z[1mq"),
+    ("\x1b(", "0q"),
+];
+
+fn sweep_scalars(tier: Tier) -> Vec<char> {
+    (0u32..=0x10FFFF)
+        .filter(|&c| match tier {
+            Tier::Thorough => true,
+            // every scalar below U+3000, the specials at the end of the BMP (variation
+            // selectors, BOM, non-characters), the tag / variation-selector plane start,
+            // and every 251st of the rest
+            Tier::Quick => c < 0x3000 || (0xFE00..=0xFFFF).contains(&c) || (0xE0000..=0xE01FF).contains(&c) || c % 251 == 0,
+        })
+        .filter_map(char::from_u32)
+        .collect()
+}
+
+/// Every Unicode scalar at a call boundary: the character is placed in each context and
+/// the input is fed whole, cut before it, after it, on both sides, one feed_str per
+/// character, and through feed(); all must agree with the single call.
+fn scalar_at_cut(ctx: &Ctx, rep: &mut Report) {
+    let cfg = Cfg::new(6, 2, None);
+    let scalars = sweep_scalars(ctx.tier);
+    let t0 = Instant::now();
+    let bad: Vec<(char, usize, String)> = scalars
+        .par_iter()
+        .filter_map(|&ch| {
+            for (ci, (pre, suf)) in CONTEXTS.iter().enumerate() {
+                let r = guarded(|| {
+                    let chars: Vec<char> = pre.chars().chain(std::iter::once(ch)).chain(suf.chars()).collect();
+                    let (n, a) = (chars.len(), pre.chars().count());
+                    let want = final_of(&cfg, &rebuild(&cfg, &chars, &[n]));
+                    let all: Vec<usize> = (1..=n).collect();
+                    for cuts in [vec![a, n], vec![a + 1, n], vec![a, a + 1, n], all] {
+                        let got = final_of(&cfg, &rebuild(&cfg, &chars, &cuts));
+                        if got != want {
+                            return Some(format!("cuts {:?}: {}", cuts, diff(&got, &want)));
+                        }
+                    }
+                    let mut pc = cfg.build();
+                    for &c in &chars {
+                        pc.feed(c);
+                    }
+                    let got = final_of(&cfg, &pc);
+                    if got != want {
+                        return Some(format!("feed() per char: {}", diff(&got, &want)));
+                    }
+                    None
+                });
+                match r {
+                    Ok(None) => {}
+                    Ok(Some(d)) => return Some((ch, ci, d)),
+                    Err(p) => return Some((ch, ci, format!("panic: {}", p))),
+                }
+            }
+            None
+        })
+        .collect();
+    let runs = scalars.len() as u64 * CONTEXTS.len() as u64 * 6;
+    rep.evaluations += runs;
+    rep.transitions += runs;
+    rep.traces_validated += scalars.len() as u64 * CONTEXTS.len() as u64;
+    rep.distinct_nontrivial += scalars.len() as u64;
+    rep.parts.push(json!({"part":"scalar-at-cut","config":cfg.name(),"scalars":scalars.len(),"all_scalars":ctx.tier == Tier::Thorough,"contexts":CONTEXTS.len(),"runs":runs,
+        "violating_scalars":bad.len(),"wall_s":t0.elapsed().as_secs_f64()}));
+    println!("part scalar-at-cut: {} scalars x {} contexts x 6 chunkings, {} violating ({:.1}s)", scalars.len(), CONTEXTS.len(), bad.len(), t0.elapsed().as_secs_f64());
+    for (ch, ci, d) in bad.iter().take(3) {
+        let (pre, suf) = CONTEXTS[*ci];
+        emit_violation(ctx, rep, "C12", json!({"part":"scalar-at-cut","config":cfg_json(&cfg),"scalar":*ch as u32,"context":ci,
+            "input":esc(&format!("{}{}{}", pre, ch, suf)),"oracle":"feed_str-chunking","observed":d}));
+    }
+    if bad.len() > 3 {
+        rep.violations += bad.len() as u64 - 3;
+    }
+}
+
 pub fn run(ctx: &Ctx) -> Report {
     let mut rep = Report::new();
     crate::engine::install_panic_hook();
+    scalar_at_cut(ctx, &mut rep);
     let k = ctx.tier.pick(3, 4);
     let strs3 = strings(3, ctx.tier == Tier::Quick);
     let strs4 = if k == 4 { strings(4, false) } else { vec![] };
@@ -297,12 +383,18 @@ pub fn run(ctx: &Ctx) -> Report {
     }
     rep.samples.push(json!({"tokens": TOKENS.iter().map(|t| esc(t)).collect::<Vec<_>>() }));
     rep.samples.push(json!(esc(&strs3[strs3.len() / 2].iter().map(|&t| TOKENS[t]).collect::<String>())));
-    rep.rule = "all token strings of <=k tokens over a 35-token alphabet (27 of them in the quick tier) of complete texts/sequences; for each string ALL 2^(n-1) ways of cutting it into feed_str calls are covered by the cut-DAG (node = position x implementation fingerprint after a call boundary; soundness: the future of a call boundary depends only on the state), plus feed() per char; every final node is compared (visible screen, cursor, dump(), and lines() when unlimited) with the single-call result; non-trivial = distinct final nodes compared".into();
+    rep.rule = "all token strings of <=k tokens over a 35-token alphabet (27 of them in the quick tier) of complete texts/sequences; for each string ALL 2^(n-1) ways of cutting it into feed_str calls are covered by the cut-DAG (node = position x implementation fingerprint after a call boundary; soundness: the future of a call boundary depends only on the state), plus feed() per char; every final node is compared (visible screen, cursor, dump(), and lines() when unlimited) with the single-call result; non-trivial = distinct final nodes compared; plus every Unicode scalar (quick: < U+3000, U+FE00-FFFF, U+E0000-E01FF, every 251st; thorough: all) placed in 8 contexts (ground, OSC, DCS, SOS, CSI parameters, CSI entry, after ESC, charset designation) and fed whole, cut before / after / around it, one call per character and via feed()".into();
     rep.assumptions = vec!["cut-pattern count is the number of paths through the DAG (reported as a float)".into()];
     rep
 }
 
-pub fn replay(_ctx: &Ctx, v: &Value) -> bool {
+pub fn replay(ctx: &Ctx, v: &Value) -> bool {
+    if v["part"] == "scalar-at-cut" {
+        let mut rep = Report::new();
+        let c2 = Ctx { id: ctx.id.clone(), tier: Tier::Thorough, seed: 0, start: ctx.start, known: ctx.known.clone(), replay_dir: ctx.replay_dir.clone() };
+        scalar_at_cut(&c2, &mut rep);
+        return rep.violations > 0;
+    }
     let cfg = cfg_from(&v["config"]);
     let toks: Vec<usize> = v["tokens"].as_array().unwrap().iter().map(|x| x.as_u64().unwrap() as usize).collect();
     let st = explore(&cfg, &toks, KnownFindings::load().listed("KF-C12-a", "C12"));
